@@ -2,8 +2,9 @@
 
 Proof: FP/Props/C14.lean (`reconstruct_euler`, `reconstruct_zero`) about FP/Model/Euler.lean.
 Tie: K1 exact-output differential of `_reconstruct_eulerian_walk` / `_build_closed_walk_from_vertex`
-/ `_build_residual_graph_for_layer` / `get_solution_walks` (real code, driven through a stub object)
-against the Lean driver on generated Eulerian s-t multigraphs and on malformed ones.
+(real code on a bare subclass instance) and of `_build_residual_graph_for_layer` / `get_solution_walks`
+(real, constructed model objects with an injected assignment) against the Lean driver on generated
+Eulerian s-t multigraphs and on malformed ones.
 """
 import json, random
 from collections import Counter
